@@ -17,47 +17,87 @@ def importOutputText (lines : List String) : Except Err OutVar :=
 /-- `FllImporter.rule_block` on the raw lines of the text -/
 def importBlockText (lines : List String) : Except Err Block := lines.foldlM (stepText importBlockLine) {}
 
-theorem code_inputVariable (fll : String) :
-    (FllImporter_input_variable.run fll {} >>= fun r => Py.deref r.ret) = lift (importInputText (splitLines fll)) := by
+/-- `Agree` with an optional result, case by case -/
+theorem agree_some {S β : Type} (proj : S → Option β) (r : Except Err β) (g : Py.M S) :
+    Agree proj (r.map some) g →
+    match r with
+    | .error e => g = .error e.toPy
+    | .ok v => ∃ σ, g = .ok σ ∧ proj σ = some v := by
+  cases r <;> exact id
+
+/-- `Agree`, case by case -/
+theorem agree_cases {S β : Type} (proj : S → β) (r : Except Err β) (g : Py.M S) :
+    Agree proj r g →
+    match r with
+    | .error e => g = .error e.toPy
+    | .ok v => ∃ σ, g = .ok σ ∧ proj σ = v := by
+  cases r <;> exact id
+
+/-- the value a caller takes from the field `ret` -/
+theorem agree_val {S β : Type} (ret : S → Option β) (r : Except Err β) (g : Py.M S) (h : Agree ret (r.map some) g) :
+    (g >>= fun σ => Py.deref (ret σ)) = lift r := by
+  cases r with
+  | error e => simp only [Agree, Except.map] at h; simp only [h, bind, Except.bind, lift]
+  | ok v =>
+    obtain ⟨σ, e1, e2⟩ := h
+    simp only [e1, bind, Except.bind, lift, e2, Py.deref_some]
+
+theorem code_inputVariable_agree (fll : String) :
+    Agree (·.ret) ((importInputText (splitLines fll)).map some) (FllImporter_input_variable.run fll {}) := by
   have h := code_ivLoop fll (splitLines fll) { iv := {} } {} rfl
   unfold FllImporter_input_variable.run importInputText
   cases hm : (splitLines fll).foldlM (stepText (importVarLine .inputVariable)) {} with
   | error e =>
     rw [hm] at h
     simp only [Agree] at h
-    simp only [h, bind, Except.bind, Except.map, lift]
+    simp only [h, bind, Except.bind, Except.map, Agree]
   | ok v =>
     rw [hm] at h
     obtain ⟨σ', e, hv⟩ := h
-    simp only [e, bind, Except.bind, Except.map, lift, Py.deref_some, hv, finishVar]
+    refine ⟨_, by simp only [e, bind, Except.bind]; rfl, ?_⟩
+    simp only [← hv, finishVar]
 
-theorem code_outputVariable (fll : String) :
-    (FllImporter_output_variable.run fll {} >>= fun r => Py.deref r.ret) = lift (importOutputText (splitLines fll)) := by
+theorem code_outputVariable_agree (fll : String) :
+    Agree (·.ret) ((importOutputText (splitLines fll)).map some) (FllImporter_output_variable.run fll {}) := by
   have h := code_ovLoop fll (splitLines fll) { ov := {} } {} rfl
   unfold FllImporter_output_variable.run importOutputText
   cases hm : (splitLines fll).foldlM (stepText importOutLine) {} with
   | error e =>
     rw [hm] at h
     simp only [Agree] at h
-    simp only [h, bind, Except.bind, Except.map, lift]
+    simp only [h, bind, Except.bind, Except.map, Agree]
   | ok v =>
     rw [hm] at h
     obtain ⟨σ', e, hv⟩ := h
-    simp only [e, bind, Except.bind, Except.map, lift, Py.deref_some, hv, finishVar]
+    refine ⟨_, by simp only [e, bind, Except.bind]; rfl, ?_⟩
+    simp only [← hv, finishVar]
 
-theorem code_ruleBlock (fll : String) :
-    (FllImporter_rule_block.run fll {} >>= fun r => Py.deref r.ret) = lift (importBlockText (splitLines fll)) := by
+theorem code_ruleBlock_agree (fll : String) :
+    Agree (·.ret) ((importBlockText (splitLines fll)).map some) (FllImporter_rule_block.run fll {}) := by
   have h := code_rbLoop fll (splitLines fll) { rb := {} } {} rfl
   unfold FllImporter_rule_block.run importBlockText
   cases hm : (splitLines fll).foldlM (stepText importBlockLine) {} with
   | error e =>
     rw [hm] at h
     simp only [Agree] at h
-    simp only [h, bind, Except.bind, lift]
+    simp only [h, bind, Except.bind, Except.map, Agree]
   | ok v =>
     rw [hm] at h
     obtain ⟨σ', e, hv⟩ := h
-    simp only [e, bind, Except.bind, lift, Py.deref_some, hv]
+    refine ⟨_, by simp only [e, bind, Except.bind]; rfl, ?_⟩
+    simp only [← hv]
+
+theorem code_inputVariable (fll : String) :
+    (FllImporter_input_variable.run fll {} >>= fun r => Py.deref r.ret) = lift (importInputText (splitLines fll)) :=
+  agree_val _ _ _ (code_inputVariable_agree fll)
+
+theorem code_outputVariable (fll : String) :
+    (FllImporter_output_variable.run fll {} >>= fun r => Py.deref r.ret) = lift (importOutputText (splitLines fll)) :=
+  agree_val _ _ _ (code_outputVariable_agree fll)
+
+theorem code_ruleBlock (fll : String) :
+    (FllImporter_rule_block.run fll {} >>= fun r => Py.deref r.ret) = lift (importBlockText (splitLines fll)) :=
+  agree_val _ _ _ (code_ruleBlock_agree fll)
 
 /-! ## `_process` -/
 
@@ -505,5 +545,79 @@ theorem engineLoopText_lexed : ∀ (ws : List (List Char)) (ls : List Line), lex
 theorem importTextLazy_lexed (fll : String) (ls : List Line) (h : lexText fll = .ok ls) :
     importTextLazy fll = fllImport ls :=
   engineLoopText_lexed (splitNl fll.toList) ls h none [] {}
+
+end Op.FllIO
+
+namespace Op.FllIO
+open Gen.Code Py.Fll
+
+/-- when every line lexes, the text-level reading of a component is the reading of its token lines -/
+theorem foldlM_stepText_lexed {β : Type} (f : β → Line → Except Err β) : ∀ (ws : List (List Char)) (ls : List Line),
+    lexLines ws = .ok ls → ∀ b, (ws.map String.ofList).foldlM (stepText f) b = ls.foldlM f b
+  | [], ls, h, b => by
+    simp only [lexLines, List.foldr_nil, Except.ok.injEq] at h
+    subst h; rfl
+  | w :: ws, ls, h, b => by
+    have hstep : lexLines (w :: ws) = (do
+        let rest ← lexLines ws
+        match ← lexLine w with
+        | none => pure rest
+        | some l => pure (l :: rest)) := rfl
+    rw [hstep] at h
+    cases hr : lexLines ws with
+    | error err => rw [hr] at h; simp [bind, Except.bind] at h
+    | ok rest =>
+      have ih := foldlM_stepText_lexed f ws rest hr
+      rw [hr] at h
+      cases hw : lexLine w with
+      | error err => rw [hw] at h; simp [bind, Except.bind] at h
+      | ok o =>
+        rw [hw] at h
+        simp only [List.map_cons, List.foldlM_cons, stepText, String.toList_ofList, hw]
+        cases o with
+        | none =>
+          simp only [bind, Except.bind, pure, Except.pure, Except.ok.injEq] at h
+          subst h
+          exact ih b
+        | some l =>
+          simp only [bind, Except.bind, pure, Except.pure, Except.ok.injEq] at h
+          subst h
+          simp only [List.foldlM_cons, bind, Except.bind]
+          cases f b l with
+          | error err => rfl
+          | ok b' => exact ih b'
+
+/-- a text with a line that does not lex is rejected by the text-level loop -/
+theorem engineLoopText_unlexed : ∀ (ws : List (List Char)) (e : Err), lexLines ws = .error e →
+    ∀ comp block eng, ∃ e', engineLoopText (ws.map String.ofList) comp block eng = .error e'
+  | [], e, h, _, _, _ => by simp [lexLines] at h
+  | w :: ws, e, h, comp, block, eng => by
+    have hstep : lexLines (w :: ws) = (do
+        let rest ← lexLines ws
+        match ← lexLine w with
+        | none => pure rest
+        | some l => pure (l :: rest)) := rfl
+    rw [hstep] at h
+    simp only [List.map_cons, engineLoopText, String.toList_ofList]
+    cases hw : lexLine w with
+    | error err => exact ⟨_, rfl⟩
+    | ok o =>
+      cases hr : lexLines ws with
+      | ok rest => rw [hr, hw] at h; cases o <;> simp [bind, Except.bind, pure, Except.pure] at h
+      | error err =>
+        have ih := engineLoopText_unlexed ws err hr
+        cases o with
+        | none => exact ih _ _ _
+        | some l =>
+          simp only
+          split_ifs
+          · cases comp with
+            | none => exact ih _ _ _
+            | some K =>
+              simp only [bind, Except.bind]
+              cases processBlock K block eng with
+              | error err' => exact ⟨_, rfl⟩
+              | ok e' => exact ih _ _ _
+          · exact ih _ _ _
 
 end Op.FllIO
